@@ -19,3 +19,5 @@ open CaddyModel.C14
 #print axioms recovery_old_order_fails
 #print axioms autosave_old_style_fails
 #print axioms provision_alone_after_interrupted_renewal_mismatched
+#print axioms ca_write_order_matches_source
+#print axioms autosave_program_matches_source
